@@ -38,3 +38,48 @@ Theorem C01_executable_is_relation : forall fuel s p buf es r n,
   Drain st pend ev need step s p buf es r n.
 Proof. intros; eapply drain_fuel_sound; eassumption. Qed.
 Print Assumptions C01_executable_is_relation.
+
+From VD Require Import Proofs.BannerP.
+
+(** The whole client, banner phase included.  [CFeed] is one dataReceived call that is not rejected
+    (the client calls loseConnection on every delivery of a stream that cannot become a banner; Twisted
+    then stops delivering - that case has no derivation).  From a fresh client, or from any state an
+    earlier delivery left, delivering a stream in any chunks yields exactly the events, the end state
+    (banner buffer or engine state) and the handler count of delivering it whole - wherever the cuts
+    fall: inside the twelve banner bytes, between banner and handshake, inside any later message. *)
+Theorem C01_whole_client_chunking : forall chunks c es c2 n,
+  cquiescent c -> (CRuns c chunks es c2 n <-> CFeed c (concat chunks) es c2 n).
+Proof. exact CRuns_concat. Qed.
+Print Assumptions C01_whole_client_chunking.
+
+Theorem C01_whole_client_any_two : forall c c1 c2 es cf n,
+  cquiescent c -> concat c1 = concat c2 -> (CRuns c c1 es cf n <-> CRuns c c2 es cf n).
+Proof. exact client_chunking_invariance. Qed.
+Print Assumptions C01_whole_client_any_two.
+
+(** Rejection is final, so cutting a stream never turns a rejected one into an accepted one or back. *)
+Theorem C01_rejection_is_stable : forall s x y,
+  handle_initial s x = ILose -> handle_initial s (x ++ y) = ILose.
+Proof. exact handle_initial_lose. Qed.
+Print Assumptions C01_rejection_is_stable.
+
+(** The executable client the harness compares with the implementation is this relation. *)
+Theorem C01_executable_client_is_relation : forall fuel c d es c' n,
+  feed_plain fuel c d = Some (es, c', n) ->
+  (forall s buf, c = CInitial s buf -> handle_initial s (buf ++ d) <> ILose) ->
+  CFeed c d es c' n.
+Proof. exact feed_plain_sound. Qed.
+Print Assumptions C01_executable_client_is_relation.
+
+(** A fresh client is quiescent, and a banner cut in three is accepted: the premises are met. *)
+Example C01_banner_nonvacuous :
+  let c := mk_cfg 1 1 None [] [] false false false false false 0 [] in
+  let s := mk_st c None None (0, 0) (0, 0) 0 [] Gen.Tables.RGB32 Base.PixFmt.MRGBX (-1) (-1) false 0 0 [] [] [] false in
+  cquiescent (CInitial s []) /\
+  handle_initial s [82; 70; 66] = IWait /\
+  handle_initial s ([82; 70; 66] ++ [32; 48; 48; 51; 46; 48]) = IWait /\
+  exists s' es, handle_initial s ([82; 70; 66] ++ [32; 48; 48; 51; 46; 48] ++ [48; 56; 10; 1]) = IGo s' PNumSec [1] es.
+Proof.
+  cbv zeta. split; [reflexivity|]. split; [vm_compute; reflexivity|]. split; [vm_compute; reflexivity|].
+  eexists. eexists. vm_compute. reflexivity.
+Qed.
